@@ -9,13 +9,15 @@ Inductive case :=
 | EncCase (f : frame) (enc : option string) (len : Z)
 | ParseCase (dg rsa af : bool) (exp lvl : Z) (input : string) (cls consumed : Z) (fr : option frame)
 | SplitCase (f : frame) (maxSize maxDataLen : Z) (new : option frame) (split : bool) (after : frame)
-| AckTruncCase (f : frame) (maxSize n : Z).
+| AckTruncCase (f : frame) (maxSize n : Z)
+| MaxDataLenCase (kind sid off : Z) (dlp : bool) (maxSize r : Z). (* kind 0 STREAM, 1 CRYPTO, 2 DATAGRAM *)
 
 Inductive obs :=
 | EncObs (enc : option (list Z)) (len : Z)
 | ParseObs (cls consumed : Z) (fr : option frame)
 | SplitObs (maxDataLen : Z) (new : option frame) (split : bool) (after : frame)
 | AckTruncObs (n : Z)
+| MaxDataLenObs (r : Z)
 | BadCase.
 
 Definition model_obs (c : case) : obs :=
@@ -33,6 +35,10 @@ Definition model_obs (c : case) : obs :=
     let '(new, split, after) := split_crypto off data maxSize in
     SplitObs (maxdatalen_crypto off maxSize) new split after
   | AckTruncCase (FAck rs d e0 e1 ce) maxSize _ => AckTruncObs (num_encodable_ack_ranges rs d e0 e1 ce maxSize)
+  | MaxDataLenCase kind sid off dlp maxSize _ =>
+    MaxDataLenObs (if kind =? 0 then maxdatalen_stream sid off dlp maxSize
+                   else if kind =? 1 then maxdatalen_crypto off maxSize
+                   else maxdatalen_datagram dlp maxSize)
   | _ => BadCase
   end.
 
@@ -56,5 +62,6 @@ Definition check_case (c : case) : bool :=
   | SplitCase _ _ m new split after, SplitObs m' new' split' after' =>
     (m =? m') && opt_frame_eqb new new' && Bool.eqb split split' && frame_eqb after after'
   | AckTruncCase _ _ n, AckTruncObs n' => n =? n'
+  | MaxDataLenCase _ _ _ _ _ r, MaxDataLenObs r' => r =? r'
   | _, _ => false
   end.
